@@ -1,2 +1,248 @@
-(* TsrEquiv2 — reserved. *)
+(* TsrEquiv2 — C08, part 2: M2t's trailing-slash candidate = Spec.select_tsr_in (the selection on the
+   slash-toggled path), and the request-level statement roots_lookup = spec_lookup including the
+   tsr outcome, for path-only method trees.
+   Owner: proof agent p-tsr. *)
 From FoxBase Require Import Bytes.
+From FoxRoute Require Import Node Lookup Spec SpecFacts Tree Corr StaticEquiv StaticEquiv2 TsrEquiv.
+Open Scope char_scope.
+
+(* ------------------------------------------------------------------ *)
+(* small facts                                                          *)
+(* ------------------------------------------------------------------ *)
+Lemma talt_TN a b c : talt a b = TN c -> exists ca cb, a = TN ca /\ b = TN cb /\ c = cor ca cb.
+Proof.
+  destruct a as [l v|ca]; simpl; [discriminate|]. destruct b as [l v|cb]; simpl; [discriminate|].
+  intros [= <-]. eauto.
+Qed.
+Lemma tcons_TN c0 b c : tcons c0 b = TN c -> exists cb, b = TN cb /\ c = cor c0 cb.
+Proof. destruct b as [l v|cb]; simpl; [discriminate|]. intros [= <-]. eauto. Qed.
+Lemma twith_TN v r c : twith v r = TN c -> exists c', r = TN c' /\ c = cwith v c'.
+Proof. destruct r as [l k|c']; simpl; [discriminate|]. intros [= <-]. eauto. Qed.
+
+Lemma seg_app_slash : forall q r, seg is_slash (q ++ "/" :: r) = seg is_slash q.
+Proof.
+  induction q as [|x q IH]; intros r; simpl; auto.
+  destruct (is_slash x); auto. rewrite IH. reflexivity.
+Qed.
+
+Lemma index_byte_app_slash : forall q,
+  index_byte (q ++ ["/"]) "/" = match index_byte q "/" with Some d => Some d | None => Some (List.length q) end.
+Proof.
+  induction q as [|x q IH]; simpl; auto.
+  destruct (Ascii.eqb x "/"); auto. rewrite IH. destruct (index_byte q "/"); reflexivity.
+Qed.
+
+Lemma one_slash_snoc done : one_slash (done ++ [TStatic "/"]) = Spec.is_nil done.
+Proof. destruct done as [|t [|t2 l]]; simpl; auto; destruct t; auto; destruct l; auto. Qed.
+Lemma one_slash_snoc_catch done nm : one_slash (done ++ [TCatch nm]) = false.
+Proof. destruct done as [|t [|t2 l]]; simpl; auto; destruct t; auto; destruct l; auto. Qed.
+
+Lemma scant_fin_TD sub fin nm : (forall v, exists l k, fin v = TD l k) ->
+  forall sf v q, List.length q < sf -> exists l k, scant sf sub fin nm v q = TD l k.
+Proof.
+  intros Hfin. induction sf as [|f IH]; intros v q Hl; [lia|]. cbn [scant].
+  destruct (index_byte q "/") as [[|d]|] eqn:E; auto.
+  destruct (sub (skipn (S d) q)) as [l k|c]; [eauto|].
+  pose proof (index_byte_nth q (S d) E) as [_ Hd].
+  destruct (IH (v ++ firstn (S d) q ++ ["/"]) (skipn 1 (skipn (S d) q))) as (l & k & ->).
+  - rewrite !skipn_length. lia.
+  - simpl. eauto.
+Qed.
+
+(* ------------------------------------------------------------------ *)
+(* remove-slash: M2t on q ++ "/" against M2 on q                        *)
+(* ------------------------------------------------------------------ *)
+Definition pc (pm : option node) : tcand :=
+  match pm with Some p => if is_leaf p then Some (p, []) else None | None => None end.
+Definition hd_slash (kt : list token) : bool :=
+  match kt with TStatic c :: _ => Ascii.eqb c "/" | _ => false end.
+Definition rmc (pm : option node) (done kt : list token) (q : bytes) : tcand :=
+  if Spec.is_nil q && Spec.is_nil done && hd_slash kt then pc pm else None.
+
+Lemma par_cand_snoc pm done : par_cand pm (done ++ [TStatic "/"]) = if Spec.is_nil done then pc pm else None.
+Proof.
+  unfold par_cand, pc. rewrite one_slash_snoc. destruct pm as [p|]; [|destruct (Spec.is_nil done); reflexivity].
+  destruct (is_leaf p), (Spec.is_nil done); reflexivity.
+Qed.
+
+Lemma scan_rm (subt : bytes -> tres) (sub : bytes -> mres) (fint : bytes -> tres) nm :
+  (forall q1 c1, subt (q1 ++ ["/"]) = TN c1 -> c1 = sub q1) -> sub [] = None ->
+  (forall v, fint v = TN None) ->
+  forall sf sf' v q c, List.length (q ++ ["/"]) < sf -> List.length q < sf' ->
+    scant sf subt fint nm v (q ++ ["/"]) = TN c -> c = scan sf' sub (fun _ => None) nm v q.
+Proof.
+  intros Hsub Hnil Hfin. induction sf as [|f IH]; intros sf' v q c Hl Hl' Hs; [lia|].
+  destruct sf' as [|f']; [lia|]. cbn [scant scan] in *.
+  rewrite index_byte_app_slash in Hs. rewrite app_length in Hl. simpl in Hl.
+  destruct (index_byte q "/") as [[|d]|] eqn:E.
+  - rewrite Hfin in Hs. congruence.
+  - pose proof (index_byte_nth q (S d) E) as [_ Hd].
+    rewrite firstn_app, skipn_app in Hs.
+    replace (S d - List.length q) with 0 in Hs by lia.
+    change (firstn 0 ["/"]) with (@nil ascii) in Hs. change (skipn 0 ["/"]) with ["/"] in Hs.
+    rewrite !app_nil_r in Hs.
+    destruct (subt (skipn (S d) q ++ ["/"])) as [l k|c1] eqn:Es; [discriminate|].
+    apply Hsub in Es. apply tcons_TN in Hs. destruct Hs as (c2 & Hs & ->).
+    assert (Hq' : skipn 1 (skipn (S d) q ++ ["/"]) = skipn 1 (skipn (S d) q) ++ ["/"]).
+    { destruct (skipn (S d) q) as [|x r] eqn:Eq; [|reflexivity].
+      apply (f_equal (@List.length ascii)) in Eq. rewrite skipn_length in Eq. simpl in Eq. lia. }
+    rewrite Hq' in Hs. apply (IH f') in Hs.
+    + rewrite <- Es. destruct c1 as [[l kvs]|]; simpl; auto.
+    + rewrite app_length, !skipn_length. simpl. lia.
+    + rewrite !skipn_length. lia.
+  - destruct (List.length q) as [|d] eqn:El.
+    + rewrite Hfin in Hs. congruence.
+    + rewrite firstn_app, skipn_app, El in Hs.
+      replace (S d - S d) with 0 in Hs by lia. rewrite <- El in Hs. rewrite skipn_all, firstn_all in Hs.
+      simpl in Hs.
+      destruct (subt ["/"]) as [l k|c1] eqn:Es; [discriminate|].
+      apply (Hsub []) in Es. rewrite Hnil in Es. subst c1.
+      apply tcons_TN in Hs. destruct Hs as (c2 & Hs & ->). simpl.
+      destruct f as [|f]; simpl in Hs; [congruence|]. rewrite Hfin in Hs. congruence.
+Qed.
+
+Lemma m2_nil_pwf pre x : pwf pre x -> m2 x [] = None.
+Proof.
+  destruct x as [k r ch]. intros H. pose proof (pwf_inv _ _ _ _ H) as (kt & Hne & Hk & Hok & _).
+  apply (m2_nil_path k r ch kt Hk Hne). eapply kt_ok_tok; eauto.
+Qed.
+
+Lemma hd_slash_start pre x : pwf pre x -> hd_slash (tokenize (nkey x)) = starts_with "/" (nkey x).
+Proof.
+  intros H. destruct (pwf_tokens _ _ H) as (t & kt & Htk & Hk & _). rewrite Htk, Hk.
+  destruct t as [d|nm|nm]; reflexivity.
+Qed.
+
+Lemma starts_with_other a b k : starts_with a k = true -> starts_with b k = Ascii.eqb a b.
+Proof. destruct k as [|x k]; simpl; [discriminate|]. intros H. apply Ascii.eqb_eq in H. subst. reflexivity. Qed.
+
+Lemma is_leaf_nroute n : is_leaf n = match nroute n with Some _ => true | None => false end.
+Proof. reflexivity. Qed.
+
+Lemma kmt_rm : forall n pre, pwf pre n ->
+  forall kt done pm q c, kt_ok (cend (nroute n) (nchildren n)) kt = true ->
+    kmt true n (Kt true n) (sub0t true (nchildren n)) pm done kt (q ++ ["/"]) = TN c ->
+    c = cor (rmc pm done kt q) (km n (Kof n) (sub0of (nchildren n)) kt q).
+Proof.
+  induction n as [k r ch IH] using node_ind'. intros pre Hwf.
+  pose proof (pwf_inv _ _ _ _ Hwf) as (kt0 & Hne0 & Hk0 & Hok0 & Hr & Hnd & Hch).
+  rewrite Forall_forall in IH, Hch. cbn [nroute nchildren].
+  set (n := Node k r ch) in *.
+  (* children *)
+  assert (Hchild : forall x pm q c, In x ch -> m2t true pm x (q ++ ["/"]) = TN c ->
+            c = cor (rmc pm [] (tokenize (nkey x)) q) (m2 x q)).
+  { intros x pm q c Hx Hm. rewrite m2t_kmt in Hm. rewrite m2_km.
+    destruct (pwf_tokens _ _ (Hch x Hx)) as (t & ktx & Htk & _ & Hokx). rewrite Htk in *.
+    eapply (IH x Hx (pre ++ k)); eauto. }
+  assert (Hcc : forall cc q c, m2t_child true n cc (q ++ ["/"]) = TN c ->
+            c = match first_child cc ch with
+                | Some x => cor (rmc (Some n) [] (tokenize (nkey x)) q) (m2 x q)
+                | None => None end).
+  { intros cc q c. unfold m2t_child. change (nchildren n) with ch. destruct (first_child cc ch) as [x|] eqn:Ex.
+    - apply Hchild. apply first_child_in in Ex. tauto.
+    - congruence. }
+  induction kt as [|t kt IHkt]; intros done pm q c Hok Hm.
+  - (* key consumed *)
+    cbn [kmt km] in *. unfold rmc. cbn [hd_slash]. rewrite andb_false_r. cbn [cor].
+    unfold Kt, Kt_gen in Hm.
+    destruct q as [|c0 q'].
+    + (* only "/" left *)
+      cbn [app] in Hm. apply tcons_TN in Hm. destruct Hm as (cb & Hm & ->).
+      apply talt_TN in Hm. destruct Hm as (c1 & c23 & H1 & Hm & ->).
+      apply talt_TN in Hm. destruct Hm as (c2 & c3 & H2 & H3 & ->).
+      apply (Hcc "/" []) in H1. apply (Hcc "{" []) in H2. apply (Hcc "*" []) in H3.
+      cbn [Kof nroute nchildren]. unfold n at 1. cbn [nroute nchildren is_one_slash].
+      rewrite Ascii.eqb_refl, andb_true_r.
+      assert (Hwild : forall cc c', cc <> "/" ->
+                c' = match first_child cc ch with
+                     | Some x => cor (rmc (Some n) [] (tokenize (nkey x)) []) (m2 x [])
+                     | None => None end -> c' = None).
+      { intros cc c' Hcc' ->. destruct (first_child cc ch) as [y|] eqn:Ey; auto.
+        apply first_child_in in Ey. destruct Ey as [Hy Hsy].
+        rewrite (m2_nil_pwf _ _ (Hch y Hy)), cor_none_r. unfold rmc.
+        rewrite (hd_slash_start _ _ (Hch y Hy)), (starts_with_other cc "/" _ Hsy).
+        destruct (Ascii.eqb_spec cc "/"); [congruence|]. rewrite andb_false_r. reflexivity. }
+      assert (H2' : c2 = None) by (apply (Hwild "{"); [discriminate|exact H2]).
+      assert (H3' : c3 = None) by (apply (Hwild "*"); [discriminate|exact H3]).
+      subst c2 c3. Show. cbn [cor]. rewrite cor_none_r.
+      rewrite H1. destruct (first_child "/" ch) as [x|] eqn:Ex; cbn [is_none andb].
+      * apply first_child_in in Ex. destruct Ex as [Hx Hsx].
+        rewrite (m2_nil_pwf _ _ (Hch x Hx)), cor_none_r. unfold rmc.
+        rewrite (hd_slash_start _ _ (Hch x Hx)), Hsx. cbn [Spec.is_nil andb pc].
+        unfold is_leaf, n. simpl. destruct r; reflexivity.
+      * rewrite cor_none_r. unfold is_leaf, n. simpl. destruct r; reflexivity.
+    + (* more than "/" left: no candidate here, the children see q *)
+      cbn [app] in Hm. apply tcons_TN in Hm. destruct Hm as (cb & Hm & ->).
+      apply talt_TN in Hm. destruct Hm as (c1 & c23 & H1 & Hm & ->).
+      apply talt_TN in Hm. destruct Hm as (c2 & c3 & H2 & H3 & ->).
+      change (c0 :: q' ++ ["/"]) with ((c0 :: q') ++ ["/"]) in H1, H2, H3.
+      apply (Hcc c0) in H1. apply (Hcc "{") in H2. apply (Hcc "*") in H3.
+      assert (Hone : is_one_slash (c0 :: q' ++ ["/"]) = false) by (destruct q'; reflexivity).
+      rewrite Hone, andb_false_r. cbn [cor Kof]. unfold n at 1 2 3. cbn [nchildren].
+      unfold m2_child, alt.
+      assert (Hr0 : forall x, rmc (Some n) [] (tokenize (nkey x)) (c0 :: q') = None) by reflexivity.
+      rewrite H1, H2, H3.
+      destruct (first_child c0 ch) as [x|]; [rewrite Hr0; cbn [cor]|];
+        destruct (first_child "{" ch) as [y|]; try rewrite Hr0; cbn [cor];
+        destruct (first_child "*" ch) as [w|]; try rewrite Hr0; cbn [cor];
+        repeat match goal with |- context [m2 ?a ?b] => destruct (m2 a b) as [[? ?]|] end; reflexivity.
+  - (* a token *)
+    destruct q as [|c0 q'].
+    + (* the path is exactly "/" here *)
+      cbn [app kmt km] in *. rewrite cor_none_r.
+      destruct t as [d|nm|nm].
+      * unfold rmc. cbn [Spec.is_nil andb hd_slash].
+        destruct (Ascii.eqb d "/") eqn:Ed; cbn [andb] in Hm.
+        -- change (sbyte "/") with true in Hm. cbn iota in Hm.
+           apply Ascii.eqb_eq in Ed. subst d. rewrite andb_true_r.
+           destruct kt as [|t' kt'].
+           ++ cbn [kmt] in Hm. unfold Kt, Kt_gen in Hm. destruct (is_leaf n); [discriminate|].
+              injection Hm as <-. apply par_cand_snoc.
+           ++ cbn [kmt] in Hm. injection Hm as <-. unfold exh. apply par_cand_snoc.
+        -- injection Hm as <-. rewrite andb_false_r. reflexivity.
+      * cbn [seg is_slash] in Hm. change (is_slash "/") with true in Hm. cbn iota in Hm.
+        injection Hm as <-. unfold rmc. cbn [hd_slash]. rewrite andb_false_r. reflexivity.
+      * unfold rmc. cbn [hd_slash]. rewrite andb_false_r.
+        destruct (kt_ok_cons _ _ _ Hok) as [[Hbad _]|(nm' & Hnm & _ & Hok' & Hend)]; [discriminate|].
+        destruct kt as [|t' kt'].
+        -- exfalso. destruct (sub0t true ch) as [sb|]; [|discriminate].
+           destruct (scant_fin_TD sb (fun v => TD n [(nm, v)]) nm ltac:(eauto) (S (List.length ["/"])) [] ["/"] ltac:(simpl; lia))
+             as (l & kk & E). rewrite E in Hm. discriminate.
+        -- cbn [scant List.length index_byte] in Hm. change (Ascii.eqb "/" "/") with true in Hm. cbn iota in Hm.
+           cbn [starts_with app] in Hm. change (Ascii.eqb "/" "/") with true in Hm. cbn iota in Hm.
+           congruence.
+    + (* at least one byte before the final "/" *)
+      assert (Hrm : rmc pm done (t :: kt) (c0 :: q') = None) by reflexivity.
+      rewrite Hrm. cbn [cor]. cbn [app kmt km] in *.
+      destruct (kt_ok_cons _ _ _ Hok) as [[Hokt Hok']|(nm' & -> & Hnok & Hok' & Hend)].
+      * destruct t as [d|nm|nm]; simpl in Hokt; [| |discriminate].
+        -- destruct (Ascii.eqb d c0 && sbyte c0); [|congruence].
+           apply IHkt in Hm; auto. rewrite Hm. unfold rmc.
+           destruct (done ++ [TStatic d]) eqn:Ed; [destruct done; discriminate|].
+           rewrite andb_false_r. reflexivity.
+        -- change (c0 :: q' ++ ["/"]) with ((c0 :: q') ++ "/" :: []) in Hm. rewrite seg_app_slash in Hm.
+           destruct (seg is_slash (c0 :: q')) as [|v0 vv] eqn:Ev; [congruence|].
+           apply twith_TN in Hm. destruct Hm as (c' & Hm & ->).
+           assert (Hlen : List.length (v0 :: vv) <= List.length (c0 :: q')).
+           { rewrite <- Ev. clear. induction (c0 :: q') as [|x l IHl]; simpl; auto. destruct (is_slash x); simpl; lia. }
+           rewrite skipn_app in Hm.
+           replace (List.length (v0 :: vv) - List.length (c0 :: q')) with 0 in Hm by lia. simpl skipn in Hm at 2.
+           apply IHkt in Hm; auto. rewrite Hm. unfold rmc.
+           destruct (done ++ [TParam nm]) eqn:Ed; [destruct done; discriminate|].
+           rewrite andb_false_r. cbn [cor].
+           destruct (km n (Kof n) (sub0of ch) kt (skipn (List.length (v0 :: vv)) (c0 :: q'))) as [[l kvs]|]; reflexivity.
+      * destruct kt as [|t' kt'].
+        -- exfalso. destruct (sub0t true ch) as [sb|]; [|discriminate].
+           destruct (scant_fin_TD sb (fun v => TD n [(nm', v)]) nm' ltac:(eauto)
+                       (S (List.length (c0 :: q' ++ ["/"]))) [] (c0 :: q' ++ ["/"]) ltac:(lia)) as (l & kk & E).
+           rewrite E in Hm. discriminate.
+        -- change (c0 :: q' ++ ["/"]) with ((c0 :: q') ++ ["/"]) in Hm.
+           eapply (scan_rm _ (fun q0 => km n (Kof n) (sub0of ch) (t' :: kt') q0)); [| | | | |exact Hm].
+           ++ intros q1 c1 H1. apply IHkt in H1; auto. rewrite H1. unfold rmc, pc.
+              rewrite andb_comm. destruct (hd_slash (t' :: kt') && _); reflexivity.
+           ++ reflexivity.
+           ++ intros v. unfold exh, par_cand. rewrite one_slash_snoc_catch.
+              destruct (starts_with "/" v); [reflexivity|]. destruct pm as [p|]; [rewrite andb_false_r|]; reflexivity.
+           ++ lia.
+           ++ lia.
+Qed.
